@@ -163,15 +163,23 @@ func (c *monC01) After(m *Machine, s *Step) *Violation {
 		return violation("C01", "identity-dropped:"+op.K, "%s request removed the session user %q without logout or expiry", op.K, before)
 	}
 	// after is a new non-empty identity: it must be justified
-	if ok, inc := c.cred(m, s, after); inc {
+	ck := cookieSpentKey(s)
+	remOK := before == "" && rememberTruth(m, s, b, after) && !c.spent[ck]
+	// When the remember cookie alone justifies the session and the handler
+	// reported an error, the handler's own one-time credential may not have been
+	// consumed (a failed Save): it is not booked as spent.
+	if ok, inc := c.credMark(m, s, after, !(remOK && r.Rec.HandlerErr != nil)); inc {
 		st("C01").add("inconclusive", 1)
 		return nil
 	} else if ok {
 		c.accepted++
 		m.flag("accepted:" + op.K)
+		if remOK && r.Fired != "UseRememberToken" {
+			c.spent[ck] = true // the middleware rotated the cookie on the way in
+		}
 		return nil
 	}
-	if ck := cookieSpentKey(s); before == "" && rememberTruth(m, s, b, after) && !c.spent[ck] {
+	if remOK {
 		c.spent[ck] = true
 		c.accepted++
 		m.flag("accepted:remember")
@@ -218,7 +226,9 @@ func (c *monC01) noteReject(m *Machine, s *Step) {
 
 // cred is credTruth with single-use bookkeeping: a one-time credential that was
 // accepted once is invalid from then on, whatever storage still says.
-func (c *monC01) cred(m *Machine, s *Step, u string) (bool, bool) {
+func (c *monC01) cred(m *Machine, s *Step, u string) (bool, bool) { return c.credMark(m, s, u, true) }
+
+func (c *monC01) credMark(m *Machine, s *Step, u string, mark bool) (bool, bool) {
 	ok, inc := credTruth(m, s, u)
 	if !ok || inc {
 		return ok, inc
@@ -228,7 +238,9 @@ func (c *monC01) cred(m *Machine, s *Step, u string) (bool, bool) {
 			m.flag("spent-credential-presented")
 			return false, false
 		}
-		c.spent[k] = true
+		if mark {
+			c.spent[k] = true
+		}
 	}
 	return true, false
 }
@@ -248,7 +260,8 @@ var profC01 = profile{
 	must: []string{"auth"}, may: []string{"confirm", "lock", "logout", "oauth2", "otp", "recover", "register", "remember"},
 	setups: []string{"totp", "sms", "recovery", "expire"}, kinds: worldKinds, minOps: 14, maxOps: 34,
 	accts: [2]int{2, 4}, browsers: [2]int{1, 3}, middlewares: []string{"", "remember", "remember", "expire"},
-	tweak: func(t *rapid.T, c *harness.Config) { c.LockAfter = rapid.IntRange(2, 6).Draw(t, "lockafter2") },
+	tweak:    func(t *rapid.T, c *harness.Config) { c.LockAfter = rapid.IntRange(2, 6).Draw(t, "lockafter2") },
+	faultPct: 8, // every C01 rule is a safety rule: it must hold whichever backend call fails
 	acctTweak: func(t *rapid.T, i int, a *harness.AccountSpec, c *harness.Config) {
 		if a.Locked && chance(t, "unlockseed", 50) {
 			a.Locked = false
